@@ -6,6 +6,7 @@ import (
 	"flag"
 	"fmt"
 	"os"
+	"runtime/pprof"
 	"strconv"
 	"strings"
 	"time"
@@ -70,7 +71,13 @@ func cmdRun(args []string) {
 	solver := fs.String("solver", "z3-new", "solver")
 	full := fs.Bool("full", false, "print full result JSON")
 	inputs := fs.String("inputs", "", "JSON object of concrete nondet inputs (concrete mode)")
+	prof := fs.String("cpuprofile", "", "write cpu profile")
 	fs.Parse(args)
+	if *prof != "" {
+		f, _ := os.Create(*prof)
+		pprof.StartCPUProfile(f)
+		defer pprof.StopCPUProfile()
+	}
 	t0 := time.Now()
 	ld, err := loadRepo()
 	if err != nil {
@@ -88,6 +95,18 @@ func cmdRun(args []string) {
 		fmt.Fprintln(os.Stderr, "init:", err)
 	}
 	e.Debug = *debug
+	e.Progress = envInt("VERIF_PROGRESS", 0)
+	e.S.SlowMs = envInt("VERIF_SLOW", 0)
+	if os.Getenv("VERIF_FORKTRACE") != "" {
+		e.ForkTrace = map[string]int{}
+		go func() {
+			time.Sleep(time.Duration(envInt("VERIF_FORKTRACE", 20)) * time.Second)
+			for k, v := range e.ForkTrace {
+				fmt.Fprintf(os.Stderr, "fork %6d %s\n", v, k)
+			}
+			os.Exit(3)
+		}()
+	}
 	if lf := os.Getenv("VERIF_SMTLOG"); lf != "" {
 		f, _ := os.Create(lf)
 		e.S.Log = f
